@@ -72,3 +72,9 @@ pub fn take_persistent() -> Option<String> {
 pub fn skip(n: usize) {
     NEXT_PERSISTENT.fetch_add(n, Ordering::SeqCst);
 }
+
+/// The n-th key of the pool without drawing it (for fixtures that need a
+/// known key; use indices near the end, which normal runs never reach).
+pub fn nth_persistent(n: usize) -> Option<String> {
+    pools().0.get(n).cloned()
+}
